@@ -210,6 +210,42 @@ func runOp(kind string, g int, seed int64, i int) (out string) {
 			}
 		}
 		return digest(J{"wrong": bad})
+	case "eap_stress":
+		bad := 0
+		for k := 0; k < 200; k++ {
+			p := eap.NewEapAkaPrime(eap.EapAkaSubtype(1 + k%5))
+			res := fillPattern("seeded", 4+(g+k)%13, g)
+			_ = p.SetAttr(eap.AT_RES, res)
+			_ = p.SetAttr(eap.AT_KDF_INPUT, fillPattern("seeded", (g*7+k)%60, g+k))
+			_ = p.SetAttr(eap.AT_MAC, make([]byte, 16))
+			pk := &eap.EAP{Code: eap.EapCodeResponse, Identifier: uint8(k), EapTypeData: p}
+			b, err := pk.Marshal()
+			back := new(eap.EAP)
+			if err != nil || back.Unmarshal(b) != nil {
+				bad++
+				continue
+			}
+			a, gerr := back.EapTypeData.(*eap.EapAkaPrime).GetAttr(eap.AT_RES)
+			if gerr != nil || string(a.GetValue()) != string(res) {
+				bad++
+			}
+			m1, e1 := pk.CalcEapAkaPrimeAtMAC(fillPattern("seeded", 32, g))
+			m2, e2 := back.CalcEapAkaPrimeAtMAC(fillPattern("seeded", 32, g))
+			if e1 != nil || e2 != nil || string(m1) != string(m2) {
+				bad++
+			}
+		}
+		return digest(J{"wrong": bad})
+	case "keys_stress":
+		var outs []any
+		for k := 0; k < 12; k++ {
+			o := actIkeDerive(e, J{"name": "S", "suite": J{"encr": []int{128, 192, 256}[(g+k)%3], "integ": []string{"md5", "sha1", "sha256"}[(g/3+k)%3], "prf": []string{"md5", "sha1", "sha256"}[(g+2*k)%3]},
+				"grp": 14, "via": []string{"str", "transform"}[k%2], "nonce": fillPattern("seeded", 16+k, g), "secret": fillPattern("seeded", 128, g+k),
+				"spii": be(uint64(g), 8), "spir": be(uint64(k), 8)})
+			c := actDeriveChild(e, J{"sa": "S", "nonce": fillPattern("seeded", 8+k, g), "encr": 128, "integ": []string{"none", "md5", "sha1", "sha256"}[k%4]})
+			outs = append(outs, o["sk_d"], o["sk_pr"], c["er"], c["ar"])
+		}
+		return digest(outs)
 	case "strings":
 		s := message.IkePayloadType(33+g%16).String() + message.IkePayloadType(200).String() + eap.EapType(50).String() + eap.EapType(uint8(g)).String() +
 			eap.AT_RES.String() + eap.EapAkaPrimeAttrType(uint8(g)).String()
